@@ -85,3 +85,114 @@ Theorem C15_refused_calls :
   end.
 Proof. exact refused_unchanged. Qed.
 Print Assumptions C15_refused_calls.
+
+(* the clause "a refused call never leaves a damaged object" FAILS for resample (known finding
+   C15-resample-bad-grid): the values are replaced before the wave setter rejects the grid. Witness: the
+   object is left with 3 wavelengths and 4 values; and even with a grid of the right length the retained
+   wavelengths carry altered values *)
+Definition q (n d : Z) : Qc := Q2Qc (n # Z.to_pos d).
+Definition sp124 : spectrum := mkSp [q 1 1; q 2 1; q 4 1] [q 1 1; q 3 1; q 7 1].
+Theorem C15_resample_bad_grid_refuted :
+  wf sp124 /\
+  (let r := resample sp124 [q 3 1; q 2 1; q 1 1; q 1 2] in
+   snd r = Some ValueError /\ length (wave (fst r)) = 3%nat /\ length (value (fst r)) = 4%nat) /\
+  (let r := resample sp124 [q 4 1; q 2 1; q 1 1] in
+   snd r = Some ValueError /\ wave (fst r) = wave sp124 /\
+   lookup (samples sp124) (q 1 1) = Some (q 1 1) /\ lookup (samples (fst r)) (q 1 1) = Some (q 7 1)).
+Proof. exact resample_bad_grid_witness. Qed.
+Print Assumptions C15_resample_bad_grid_refuted.
+
+(* ---- (a) integrate is linear in the values, for both rules, any bounds (None = the end of the grid) ---- *)
+Theorem C15_integrate_linear :
+  forall (w v u : list Qc) (a b : Qc) (lo hi : option Qc) (r : rule),
+  length v = length w -> length u = length w ->
+  match integrate (mkSp w v) lo hi r, integrate (mkSp w u) lo hi r, integrate (mkSp w (lincomb a v b u)) lo hi r with
+  | Ok iv, Ok iu, Ok il => il = a * iv + b * iu
+  | Err e1, Err e2, Err e3 => e1 = e2 /\ e2 = e3
+  | _, _, _ => False
+  end.
+Proof. exact integrate_linear. Qed.
+Print Assumptions C15_integrate_linear.
+
+(* ---- (b) trapezoid integrate is additive over adjacent intervals that meet at a sample point ---- *)
+Theorem C15_integrate_additive_at_sample :
+  forall (s : spectrum) (lo mid hi : Qc), wf s -> In mid (wave s) -> lo <= mid -> mid <= hi ->
+  exists i1 i2 i, integrate s (Some lo) (Some mid) Trapz = Ok i1 /\ integrate s (Some mid) (Some hi) Trapz = Ok i2 /\
+                  integrate s (Some lo) (Some hi) Trapz = Ok i /\ i = i1 + i2.
+Proof. exact integrate_additive. Qed.
+Print Assumptions C15_integrate_additive_at_sample.
+
+(* ---- (c) trapezoid integrate = the integral of the piecewise-linear interpolant ([pl_integral]: sum of the
+   antiderivative differences of the linear pieces, defined for ARBITRARY bounds) when the bounds are sample
+   points, or lie at/beyond the two ends of the grid ---- *)
+Theorem C15_integrate_exact_piecewise_linear :
+  forall (s : spectrum) (lo hi : Qc), wf s ->
+  (In lo (wave s) /\ In hi (wave s) /\ lo <= hi) \/ (forall x, In x (wave s) -> lo <= x /\ x <= hi) ->
+  integrate s (Some lo) (Some hi) Trapz = Ok (pl_integral (samples s) lo hi).
+Proof. exact integrate_exact. Qed.
+Print Assumptions C15_integrate_exact_piecewise_linear.
+
+(* with a bound strictly between two samples the partial interval is DROPPED (known finding
+   C15-integrate-truncates): unit spectrum on 1,2,3,4: integrate(3/2, 7/2) = 1, the integral is 2; and the
+   power-preserved bins for centres 3/2, 5/2, 7/2 sum to 1 although the raw bins (1/2, 1, 1/2) were exact *)
+Definition sp1234 : spectrum := mkSp [q 1 1; q 2 1; q 3 1; q 4 1] [q 1 1; q 1 1; q 1 1; q 1 1].
+Theorem C15_integrate_arbitrary_bounds_refuted :
+  wf sp1234 /\
+  integrate sp1234 (Some (q 3 2)) (Some (q 7 2)) Trapz = Ok (q 1 1) /\
+  pl_integral (samples sp1234) (q 3 2) (q 7 2) = q 2 1 /\
+  bin sp1234 [q 3 2; q 5 2; q 7 2] Trapz Inside false = Ok (Some [q 1 2; q 1 1; q 1 2]) /\
+  bin sp1234 [q 3 2; q 5 2; q 7 2] Trapz Inside true = Ok (Some [q 1 4; q 1 2; q 1 4]).
+Proof. exact integrate_truncation_witness. Qed.
+Print Assumptions C15_integrate_arbitrary_bounds_refuted.
+
+(* ---- (d) bins ---- *)
+(* one value per centre (both rules, both end treatments); with power preservation and a non-zero raw sum the
+   bins are the raw ones rescaled and sum to integrate(min centre, max centre) with the same rule *)
+Theorem C15_bin_spec :
+  forall (s : spectrum) (c : list Qc) (r : rule) (e : endsmode) (pp : bool) (b : list Qc),
+  bin s c r e pp = Ok (Some b) ->
+  length b = length c /\
+  (pp = true -> exists raw lo hi tot, raw_bins s c r e = Ok raw /\ qminl c = Ok lo /\ qmaxl c = Ok hi /\
+                 integrate s (Some lo) (Some hi) r = Ok tot /\ qsum raw <> 0 /\
+                 b = map (fun x => x * (tot / qsum raw)) raw /\ qsum b = tot) /\
+  (pp = false -> raw_bins s c r e = Ok b).
+Proof. exact bin_spec. Qed.
+Print Assumptions C15_bin_spec.
+
+(* trapezoid bins of a non-negative spectrum are non-negative: any increasing centres, both end treatments,
+   with or without power preservation. (Simpson: covered by the tie and the oracle only) *)
+Theorem C15_bin_nonnegative_trapz_partial :
+  forall (s : spectrum) (c : list Qc) (e : endsmode) (pp : bool) (b : list Qc),
+  wf s -> Forall (fun y => 0 <= y) (value s) -> increasing c ->
+  bin s c Trapz e pp = Ok (Some b) -> Forall (fun y => 0 <= y) b.
+Proof. exact bin_trapz_nonneg. Qed.
+Print Assumptions C15_bin_nonnegative_trapz_partial.
+
+(* a spectrum that is the straight line al*x + be over a range containing all bin edges/nodes: every raw bin is
+   the exact integral of the line over the bin - trapezoid rule for ANY centres, Simpson's rule for uniformly
+   spaced centres (only then is the node the middle of its bin) *)
+Theorem C15_bin_exact_for_linear_spectrum :
+  forall (s : spectrum) (c : list Qc) (e : endsmode) (al be h : Qc),
+  wf s -> wave s <> [] -> (2 <= length c)%nat ->
+  (forall a y, In (a, y) (samples s) -> y = al * a + be) ->
+  ((forall t, In t (bin_edges_trapz e c) -> hd 0 (wave s) <= t /\ t <= last (wave s) 0) ->
+   raw_bins s c Trapz e = Ok (line_bins al be (bin_edges_trapz e c))) /\
+  (uniform_step h c -> (forall t, In t (bin_nodes_simps e c) -> hd 0 (wave s) <= t /\ t <= last (wave s) 0) ->
+   raw_bins s c Simps e = Ok (line_bins2 al be (bin_nodes_simps e c))).
+Proof. exact bin_exact_line. Qed.
+Print Assumptions C15_bin_exact_for_linear_spectrum.
+
+(* non-vacuity: a concrete spectrum with a non-uniform grid; a call sequence mixing accepted calls and a refused
+   pad meets the hypotheses of the invariant and ends in the expected state; a concrete integral and bins *)
+Definition spx : spectrum := mkSp [q 1 1; q 3 2; q 5 2; q 9 2; q 5 1] [q 0 1; q 2 1; q 4 1; q 1 1; q 0 1].
+Definition opsx : list op :=
+  [OTrim (q 1 8); OPad (q 1 2) (q 11 2) None PadEdge; OPad (q 3 1) (q 6 1) None (PadConst 0 0);
+   OCrop (q 1 1) (q 9 2); OAppend (mkSp [q 6 1] [q 3 1]); OResample [q 1 1; q 2 1; q 5 2; q 6 1; q 7 1]].
+Example C15_nonvacuous :
+  wf spx /\ Forall op_ok opsx /\ no_bad_resample spx opsx /\
+  map snd (trace spx opsx) = [None; None; Some ValueError; None; None; None] /\
+  run spx opsx = mkSp [q 1 1; q 2 1; q 5 2; q 6 1; q 7 1] [q 0 1; q 3 1; q 4 1; q 3 1; q 0 1] /\
+  integrate spx (Some (q 3 2)) (Some (q 9 2)) Trapz = Ok (q 8 1) /\
+  pl_integral (samples spx) (q 3 2) (q 9 2) = q 8 1 /\
+  bin spx [q 3 2; q 5 2; q 9 2] Trapz Inside true = Ok (Some [q 80 57; q 88 19; q 112 57]).
+Proof. exact nonvacuous_example. Qed.
